@@ -453,6 +453,28 @@ def variants_of(prog, rng, pragmas, texts, dense):
             yield prog.with_unit(uid, G.apply_wrap(rec, p, "nonce", None, nb)), "Nonce(%s, %r, .) at %s%s" % (nb[0], nb[1], uid, list(p)), "nonce", nb, G.role_of(rec, p)
 
 
+def same_text_variant(prog, rng, text):
+    """the SAME comment text at several places: around up to three none-typed statements of Seqs (with observable effects
+    where the base has them), as a stand-alone Comment and as every Assert's comment"""
+    rec = prog.main
+    pts = []
+    for p in G.all_paths(rec):
+        n = G.get(rec, p)
+        parent_ok = p and isinstance(G.get(rec, p[:-1]), tuple) and G.get(rec, p[:-1])[:1] == ("seq",)
+        if parent_ok and isinstance(n, tuple) and n[0] == "op" and n[3] == "n":
+            pts.append(p)
+    rng.shuffle(pts)
+    for p in sorted(pts[:3], reverse=True):          # deeper/later paths first so that earlier paths stay valid
+        rec = G.apply_wrap(rec, p, "comment", text)
+    for p in G.assert_points(rec):
+        rec = G.apply_assert_comment(rec, p, text)
+    ins = [(sp, i) for (sp, i) in G.seq_insert_points(rec) if i < len(G.get(rec, sp))]
+    if ins:
+        sp, i = rng.choice(ins)
+        rec = G.apply_insert(rec, sp, i, text)
+    return Prog(rec, prog.subs)
+
+
 def stacked_variant(prog, rng, pragmas, texts, n):
     """several annotations at once (applied one after the other at random points of the main routine)"""
     rec = prog.main
@@ -572,7 +594,7 @@ def main(argv):
         # every variant under a rotating pair of option sets (all option sets are covered across variants)
         for vi, (var, desc, kind, nb, role) in enumerate(vs):
             roles[role] = roles.get(role, 0) + 1
-            k = (1 if kind in ("pragma", "nonce") else 2) if not thorough else 6
+            k = (1 if kind in ("pragma", "nonce") or (kind == "comment-wrap" and vi % 3) else 2) if not thorough else 6
             for j in range(k):
                 opt = opts_all[(vi * k + j + bi) % len(opts_all)]
                 if prog.subs and opt[0] < 4:
@@ -595,6 +617,12 @@ def main(argv):
             orc.pair(p, p.with_unit("f", G.apply_insert(body, (), len(body), "done")), opt, "directed: Comment('done') after Return() in a subroutine", "comment-stmt", force_run=True)
         p = Prog(("seq", G.POP1, G.APPROVE))
         orc.pair(p, Prog(G.apply_insert(p.main, (), 3, "end")), opt, "directed: Comment('end') after Approve() in main", "comment-stmt")
+    # the same text at several places of one program (and, across pairs, of one session): texts are reused on purpose
+    same_bases = [bd[n] for n in ("log-put", "store-load-2", "assert", "while-break", "if-else", "for")]
+    for k, p in enumerate(same_bases):
+        for j, t in enumerate(("bump counter", "two\nlines", "hi")):
+            opt = [o for o in opts_all if o[0] >= 5 and o[1]][(k + j) % 3]
+            orc.pair(p, same_text_variant(p, rng, t), opt, "%s: the same text %r at several places" % (p.main[0], t), "same-text", force_run=True)
     # Nonce with every hazard text (utf8) and the other bases, at the top of a few bases, with and without assembleConstants:
     # whatever the text and the options, a Nonce adds the push-and-pop pair and nothing else
     nonce_bases = [bd["if-else"], bd["store-load-2"], bd["sub-uint"]]
@@ -672,7 +700,10 @@ def main(argv):
     ck.coverage["names_tried"] = len(names)
 
     # ---- known findings replayed against the real code ----
-    replay_known(ck, pt, m18, avm)
+    rk = call_real(replay_known, ck, pt, m18, avm)
+    if rk[0] != "ok":
+        orc.violations.append(("a witness program of a known finding (plain or annotated form) can no longer be built or compiled: %s %s" % (rk[1], rk[2][:200]),
+                               {"kind": "known-replay", "exception": list(rk[1:])}))
 
     # ---- verdict ----
     ck.coverage["pair_statistics"] = orc.stats
